@@ -1,0 +1,10 @@
+//go:build verif
+
+package io
+
+// Contracts for the verification machinery in /verif (comment-only; see /verif/DESIGN.md).
+
+//@ func ToByteReader
+//@   ensures same_cell: cell(result) == cell(r)
+//@   ensures nonnil: result != nil
+//@   ensures same_lim: lim(result) == lim(r)
